@@ -234,6 +234,27 @@ impl Run {
 		if step.node_fail.is_some() && out.node_calls > 0 {
 			self.cov.fault("node_call_fail");
 		}
+		// simulator-level fault kinds that actually fired
+		match &step.op {
+			Op::Mutate { kind, .. } if out.ok => self.cov.fault(&format!("msg_mutation:{}", kind)),
+			Op::Fork { .. } if out.ok => self.cov.fault("reorg"),
+			Op::Restart { .. } if out.ok => self.cov.fault("restart"),
+			Op::Node { down: true } => self.cov.fault("node_down"),
+			Op::Clock { delta_ms } if *delta_ms < 0 => self.cov.fault("clock_jump_back"),
+			Op::Clock { delta_ms } if *delta_ms > 0 => self.cov.fault("clock_advance"),
+			Op::Receive { m, w, .. } | Op::Finalize { m, w, .. } | Op::Lock { m, w } => {
+				let dup = self.trace[..self.trace.len() - 1].iter().any(|s| match (&s.op, &step.op) {
+					(Op::Receive { m: m2, w: w2, .. }, Op::Receive { .. }) => m2 == m && w2 == w,
+					(Op::Finalize { m: m2, w: w2, .. }, Op::Finalize { .. }) => m2 == m && w2 == w,
+					(Op::Lock { m: m2, w: w2 }, Op::Lock { .. }) => m2 == m && w2 == w,
+					_ => false,
+				});
+				if dup {
+					self.cov.fault("duplicate_delivery");
+				}
+			}
+			_ => {}
+		}
 		if self.verbose {
 			eprintln!(
 				"[{}] {} -> {}{}",
@@ -374,9 +395,16 @@ pub fn generate(prop: &mut dyn Prop, run: &mut Run, max_steps: usize) -> (Vec<Vi
 pub fn replay(prop: &mut dyn Prop, run: &mut Run, trace: &[Step]) -> (Vec<Violation>, Option<String>) {
 	let mut all = vec![];
 	let mut aborted = None;
+	let cont = known_continue(&run.prop_id);
 	for st in trace {
 		let (out, v) = run.step(prop, st.clone());
 		if !v.is_empty() {
+			// same rule as in generation: a known finding that leaves no derived
+			// damage does not end the run
+			if v.iter().all(|x| cont.contains(&x.signature)) {
+				run.known_hits.extend(v);
+				continue;
+			}
 			all.extend(v);
 			break;
 		}
